@@ -34,6 +34,9 @@ func fixedCases() []*Case {
 		mk("fixed", 1, maxW), mk("fixed", maxW, 1), mk("fixed", 1, 1, 1, 1, 1, 1, 1, 1, 1, 1, 1, 1, 1, 1, 1, maxW),
 		mk("fixed", 9999, 1), mk("fixed", 1, 9999), mk("fixed", 1, 19999), mk("fixed", 3, 3, 3, 0, 0),
 		mk("single", 5), mk("single", 0), mk("single"),
+		// rules with one backend are outside the quantifier of C15; they exercise backendGroupName only
+		mk("single", 0), mk("single", 0), mk("single", 0), mk("single", 0), mk("single", 0), mk("single", 0),
+		mk("single", 1), mk("single", 7), mk("single", maxW), mk("single", 3), mk("single", 2), mk("single", 9),
 	}
 }
 
